@@ -58,21 +58,6 @@ where
             return Some(Fail::tagged("empty-string-reported", what, format!("{what}() returned Some(\"\")")));
         }
     }
-    // stored parts (seen through into_builder) agree with the accessors
-    let b: GenericPurlBuilder<T> = p.clone().into_builder();
-    let stored = [
-        ("namespace", b.parts.namespace.as_str(), p.namespace()),
-        ("version", b.parts.version.as_str(), p.version()),
-        ("subpath", b.parts.subpath.as_str(), p.subpath()),
-    ];
-    for (what, stored, acc) in stored {
-        if stored != acc.unwrap_or("") {
-            return Some(Fail::tagged("stored-differs-from-accessor", what, format!("stored {what} {stored:?} vs accessor {acc:?}")));
-        }
-    }
-    if b.parts.name.as_str() != p.name() {
-        return Some(Fail::tagged("stored-differs-from-accessor", "name", "stored name differs from name()"));
-    }
     for s in [Some(p.name()), p.namespace(), p.version(), p.subpath()].into_iter().flatten() {
         if std::str::from_utf8(s.as_bytes()).is_err() {
             return Some(Fail::tagged("invalid-utf8", "", format!("accessor returned invalid UTF-8: {:?}", s.as_bytes())));
